@@ -46,6 +46,16 @@ CHECKS = {
             "both call directions, with follow-up scripts; impossible exchanges must throw and change nothing."),
     "C15": ("fault_enumeration", "5 C15", "fault injection + differential: every amc:: memory algorithm x length x iterator category x value category x throw index at -std=c++11/14/17/20 under ASan/UBSan",
             "The algorithm results are compared with the standard's wording and the element ledger proves clean-up after each injected constructor fault."),
+    "C14": ("exploration", "5 C14", "runtime monitoring: containers relocated by memcpy at random quiescent points of monitored histories (differential re-run without relocation) + trait table vs conjunction of parts",
+            "The byte-copied container continues the history under the model, ledger and sanitizer monitors; the abandoned block is poisoned and freed so that a stale "
+            "self pointer is a use-after-free."),
+    "C16": ("exploration", "5 C16", "differential runtime monitoring: byte comparison of transcripts of one generated script program across a build matrix, all under UBSan; feature probes",
+            "{c++11,14,17,20} x {extras,pedantic} x {assert,NDEBUG} x {-O0,-O2}: 8 pairwise-covering builds quick, all 32 thorough."),
+    "C17": ("other", "5 C17", "observed-value monitor: generated probe programs print compile-time constants, judged by an independent oracle written from the statement",
+            "The property is decided by the compiler; the probe merely exposes what the compiler computed for a matrix of element shapes x categories x N x size_type x "
+            "standard, which the oracle (lib/c17.py) re-derives from sizes and declared attributes only."),
+    "C20": ("exploration", "5 C20", "ThreadSanitizer over reader threads sharing one const container, with a positive control and measured burst overlap",
+            "16 (type, state) cases x {2,4,8,16} threads; no race observed on the sampled schedules - not absence of races on all schedules."),
 }
 
 NA_REASON = "check not built yet in this session (engine under construction, see DESIGN.md section 5)"
